@@ -894,13 +894,13 @@ class Table(Vector):
 			# Raise mismatched column counts
 			if len(self.cols()) != len(other.cols()):
 				raise ValueError(f"Column count mismatch: {len(self.cols())} != {len(other.cols())}")
-			return Vector(tuple(op(x, y) for x, y in zip(self.cols(), other.cols(), strict=True)), False, bool, True)
+			return Vector(tuple(op(x, y) for x, y in zip(self.cols(), other.cols(), strict=True)))
 		if isinstance(other, Iterable) and not isinstance(other, (str, bytes, bytearray)):
 			# Raise mismatched row counts
 			if len(self) != len(other):
 				raise ValueError(f"Row count mismatch: {len(self)} != {len(other)}")
-			return Vector(tuple(op(x, y) for x, y in zip(self, other, strict=True)), False, bool, True).T
-		return Vector(tuple(op(x, other) for x in self.cols()), False, bool, True)
+			return Vector(tuple(op(x, y) for x, y in zip(self, other, strict=True))).T
+		return Vector(tuple(op(x, other) for x in self.cols()))
 
 	def __rshift__(self, other):
 		""" The >> operator behavior has been overridden to add the column(s) of other to self
